@@ -129,6 +129,12 @@ class TagStream(Stream):
         supported = bool(triples & self.sys_tags)
         other_major = all(re.match(r"^[a-z]{2}(\d)", p) and re.match(r"^[a-z]{2}(\d)", p).group(1) != "3" for p in pys)
         foreign_abi = all(a not in ("none", "abi3", "cp312") for a in abi.split("."))
+        # built only for interpreters newer than the running one (cp313-abi3: the stable ABI *as of 3.13*; py313): an ABI
+        # generation this interpreter does not have
+        import sys as _sys
+        newer = [re.match(r"^(?:cp|py)%d(\d+)$" % _sys.version_info.major, p) for p in pys]
+        if all(newer) and all(int(m.group(1)) > _sys.version_info.minor for m in newer):
+            other_major = True
         foreign_plat = all(_FOREIGN_PLAT.match(pl) or re.match(r"^manylinux_(3_\d+|2_(3[7-9]|[4-9]\d))_", pl) for pl in plats)
         return supported, other_major, foreign_abi, foreign_plat, len(abi.split(".")) > 1
 
